@@ -246,6 +246,14 @@ Proof.
   destruct x as [v i s [|]|r ok]; simpl; rewrite ?IH; reflexivity.
 Qed.
 
+(** outputs of [run_all] *)
+Definition all_events (outs : list (run_outcome * list rev * list event)) : list event :=
+  flat_map (fun x => snd x) outs.
+Definition wf_all (outs : list (run_outcome * list rev * list event)) : nat :=
+  list_sum (map (fun x => wf (snd x)) outs).
+Definition final_tbl (outs : list (run_outcome * list rev * list event)) (t : list rev) : list rev :=
+  fold_left (fun _ x => snd (fst x)) outs t.
+
 (** ** one directory *)
 Section Dir.
 Variable all : list file.
@@ -559,6 +567,473 @@ Proof.
       * intros ->. destruct (Snf eq_refl) as [Ho _]. contradiction.
 Qed.
 
-(*PART3*)
+
+(** ** [Pending] from a state that satisfies the invariant *)
+Definition cfg_ok (c : cfg) : Prop :=
+  c_baseline c = None /\ c_dirty c && negb (c_allow_dirty c) = false.
+
+Lemma Inv_sorted t k a has : Inv t k a has -> sorted_revs t.
+Proof.
+  intros (Hm & Hmap & _).
+  apply (proj2 (StronglySorted_map (fun a b => bytes_ltb a b = true) (@r_version hash) t)).
+  rewrite Hmap. apply (proj1 (StronglySorted_map (fun a b => bytes_ltb a b = true) f_version _)).
+  pose proof Hsorted as Hs. rewrite <- (firstn_skipn (k + b2n has) all) in Hs.
+  apply StronglySorted_app_inv in Hs as [H1 _]. exact H1.
+Qed.
+
+Lemma sorted_revs_NoDup (t : list rev) : sorted_revs t -> NoDup (map (@r_version hash) t).
+Proof.
+  induction 1 as [|x l Hs IH Hf]; simpl; constructor; [|exact IH].
+  intros Hin. apply in_map_iff in Hin as (y & Ey & Hy). rewrite Forall_forall in Hf.
+  specialize (Hf y Hy). unfold rver_lt in Hf. rewrite Ey, bytes_ltb_irrefl in Hf. discriminate.
+Qed.
+
+Lemma Inv_row t k a has i r f :
+  Inv t k a has -> nth_error t i = Some r -> nth_error all i = Some f ->
+  tbl_get t (f_version f) = Some r.
+Proof.
+  intros HI Hr Hf. pose proof HI as (Hm & Hmap & _).
+  assert (r_version r = f_version f) as Ev.
+  { pose proof (map_nth_error (@r_version hash) _ _ Hr) as H1. rewrite Hmap in H1.
+    assert (i < k + b2n has) as Hlt.
+    { assert (i < length (map f_version (firstn (k + b2n has) all))) as L by (apply nth_error_Some; congruence).
+      rewrite map_length, firstn_length in L. lia. }
+    rewrite nth_error_map, nth_error_firstn, Hf in H1 by exact Hlt. simpl in H1. congruence. }
+  rewrite <- Ev. apply tbl_get_of_In; [|eapply nth_error_In; exact Hr].
+  apply sorted_revs_NoDup. eapply Inv_sorted; exact HI.
+Qed.
+
+Lemma pending_inv c t k a has :
+  cfg_ok c -> Inv t k a has -> normal k a has ->
+  pending c all (read_revisions hash t) = (finish (skipn k all), None).
+Proof.
+  intros [Hb Hd] HI Hnorm. rewrite (read_revisions_sorted_id hash t (Inv_sorted t k a has HI)).
+  pose proof HI as (Hm & Hmap & Hrows & Hk).
+  destruct (Nat.eq_dec (k + b2n has) 0) as [E0|Hpos].
+  - assert (k = 0) as -> by lia. rewrite E0 in Hmap. simpl in Hmap. apply map_eq_nil in Hmap. subst t.
+    rewrite (first_run_no_checkpoint hash c all Hd Hb Hnock). reflexivity.
+  - rewrite (pending_linear_state hash c all t k has Hsorted Hnock).
+    + destruct (skipn k all); reflexivity.
+    + split; [exact Hm|]. split; [unfold b2n in Hpos; lia|]. split; [exact Hmap|]. split.
+      * intros i r Hi Hr.
+        destruct (nth_error_some_lt all i ltac:(lia)) as [f Hf].
+        destruct (Hrows i f Hi Hf) as (r' & Hg & (_ & Hap & _) & Ht).
+        rewrite (Inv_row t k a has i r f HI Hr Hf) in Hg. inversion Hg; subst r'. lia.
+      * intros -> r Hr. destruct Hk as (f & r' & Hf & Hg & (_ & Hap & _) & Ht).
+        rewrite (Inv_row t k a true k r f HI Hr Hf) in Hg. inversion Hg; subst r'.
+        pose proof (Hnorm eq_refl f Hf). lia.
+Qed.
+
+(** ** the journal across event prefixes and runs *)
+Lemma upto_all : upto plen = plan all.
+Proof. unfold upto. apply firstn_all. Qed.
+
+Lemma upto_snoc P y X Q :
+  P + 1 <= plen -> upto P ++ y :: X = upto Q -> upto (P + 1) = upto P ++ [y].
+Proof.
+  intros HP E.
+  assert (P + 1 <= Q) as HQ.
+  { apply (f_equal (@length _)) in E. rewrite app_length, upto_length in E by lia.
+    simpl in E. unfold upto in E. pose proof (firstn_le_length Q (plan all)). lia. }
+  apply (f_equal (firstn (P + 1))) in E. unfold upto in *.
+  rewrite firstn_firstn, Nat.min_l in E by exact HQ. rewrite <- E.
+  rewrite firstn_app, firstn_length_le by lia.
+  rewrite (firstn_all2 (firstn P (plan all))) by (rewrite firstn_length_le; lia).
+  replace (P + 1 - P) with 1 by lia. reflexivity.
+Qed.
+
+Lemma stutter_step P e d (J X : list (bytes * bytes)) Q e1 :
+  stutter d (upto (P + b2n e)) J -> P + b2n e <= plen ->
+  upto P ++ X = upto (Q + b2n e1) -> P <= Q -> Q + b2n e1 <= plen ->
+  exists e' d', stutter d' (upto (Q + b2n e')) (J ++ X) /\ Q + b2n e' <= plen /\
+                d' + b2n e' <= d + b2n e + b2n e1.
+Proof.
+  intros Hst HP E HPQ HQ. destruct X as [|y X].
+  - rewrite app_nil_r in *. apply (f_equal (@length _)) in E. rewrite !upto_length in E by lia.
+    assert (Q = P) as -> by lia. exists e, d. split; [exact Hst|]. split; [exact HP|lia].
+  - destruct e; cbn [b2n] in *.
+    + rewrite (upto_snoc P y X _ HP E) in Hst.
+      exists e1, (S d). split; [|split; [exact HQ|lia]].
+      rewrite <- E. change (y :: X) with ([y] ++ X). rewrite !app_assoc.
+      apply stutter_app. apply stutter_dup. exact Hst.
+    + rewrite Nat.add_0_r in Hst. exists e1, d. split; [|split; [exact HQ|lia]].
+      rewrite <- E. apply stutter_app. exact Hst.
+Qed.
+
+(** The global invariant: the table is at position [P = pos k a], the journal
+    [J] covers the plan up to [E = P + e] with [d] repeats, and repeats plus the
+    pending unclaimed statement are bounded by [D]. *)
+Definition GInv (t : list rev) (J : list (bytes * bytes)) (D : nat) : Prop :=
+  exists k a has e d,
+    Inv t k a has /\ stutter d (upto (pos k a + b2n e)) J /\
+    pos k a + b2n e <= plen /\ d + b2n e <= D.
+
+Definition GDone (t : list rev) (J : list (bytes * bytes)) (D : nat) : Prop :=
+  Inv t (length all) 0 false /\ exists d, stutter d (plan all) J /\ d <= D.
+
+Lemma GInv_nil : GInv [] [] 0.
+Proof.
+  exists 0, 0, false, false, 0. split; [exact Inv_nil|].
+  split; [constructor|]. simpl. split; lia.
+Qed.
+
+Lemma firstn_length_self {A} n (l : list A) : firstn n l = firstn (length (firstn n l)) l.
+Proof.
+  rewrite firstn_length. destruct (Nat.le_ge_cases n (length l)) as [H|H].
+  - rewrite Nat.min_l by exact H. reflexivity.
+  - rewrite Nat.min_r by exact H. rewrite firstn_all, firstn_all2 by lia. reflexivity.
+Qed.
+
+Lemma run_ginv c n t fs ro t' fs' es J D :
+  cfg_ok c -> GInv t J D ->
+  execute_n c n all t fs = (ro, t', fs', es) ->
+  GInv t' (J ++ journal es) (D + wf es) /\
+  t' = tbl_of_events es t /\
+  (forall es1 es2, es = es1 ++ es2 -> GInv (tbl_of_events es1 t) (J ++ journal es1) (D + 1)) /\
+  (fs = [] -> n = 0 -> GDone t' (J ++ journal es) (D + wf es)).
+Proof.
+  intros Hc (k0 & a0 & has0 & e & d & HI0 & Hst & HE & HD) Hex.
+  destruct (normalize t k0 a0 has0 HI0) as (k & a & has & HI & Hnorm & Epos).
+  rewrite <- Epos in Hst, HE. clear HI0 Epos k0 a0 has0.
+  pose proof (pending_inv c t k a has Hc HI Hnorm) as Hpend.
+  destruct (skipn k all) as [|f l] eqn:Esk.
+  - (* nothing pending *)
+    rewrite (execute_n_error hash hash_eqb HS c n all t fs _ Hpend) in Hex by (intros p; discriminate).
+    inversion Hex; subst ro t' fs' es. simpl. rewrite app_nil_r, !Nat.add_0_r.
+    assert (GInv t J D) as HG by (exists k, a, has, e, d; auto).
+    split; [exact HG|]. split; [reflexivity|]. split.
+    + intros es1 es2 E. symmetry in E. apply app_eq_nil in E as [-> _]. simpl. rewrite app_nil_r.
+      destruct HG as (k1 & a1 & has1 & e1 & d1 & H1 & H2 & H3 & H4). exists k1, a1, has1, e1, d1. split; [exact H1|split; [exact H2|split; [exact H3|lia]]].
+    + intros _ _.
+      assert (length all <= k) as Hk.
+      { apply (f_equal (@length _)) in Esk. rewrite skipn_length in Esk. simpl in Esk. lia. }
+      pose proof HI as (Hm & _ & _ & Hk').
+      assert (k = length all) as -> by lia. destruct has; [simpl in Hm; lia|]. subst a.
+      rewrite pos_all in Hst, HE. destruct e; [simpl in HE; lia|].
+      cbn [b2n] in Hst. rewrite Nat.add_0_r, upto_all in Hst.
+      split; [exact HI|]. exists d. split; [exact Hst|]. simpl in HD. lia.
+  - (* run the chosen pending files *)
+    change (finish (f :: l)) with (PFiles (f :: l)) in Hpend.
+    rewrite (execute_n_first_n hash hash_eqb HS c n all t fs _ Hpend) in Hex.
+    set (chosen := if 0 <? n then firstn n (f :: l) else f :: l) in *.
+    destruct (exec_files chosen t fs) as [[[o t2] fs2] es'] eqn:EX.
+    inversion Hex; subst ro t' fs' es. clear Hex.
+    assert (chosen = firstn (length chosen) (skipn k all)) as Hch.
+    { rewrite Esk. unfold chosen. destruct (0 <? n); [apply firstn_length_self|].
+      symmetry. apply firstn_all. }
+    destruct (exec_files_inv chosen t fs o t2 fs2 es' k a has HI Hnorm Hch EX) as (Hp & Hnf & Ht).
+    assert (forall es1 es2, es' = es1 ++ es2 ->
+              exists k1 a1 has1 e' d' w,
+                Inv (tbl_of_events es1 t) k1 a1 has1 /\
+                stutter d' (upto (pos k1 a1 + b2n e')) (J ++ journal es1) /\
+                pos k1 a1 + b2n e' <= plen /\ d' + b2n e' <= D + w /\ w <= 1 /\
+                (es2 = [] -> w <= wf es' /\
+                   (o = ODone -> chosen <> [] -> k1 = k + length chosen /\ a1 = 0 /\ has1 = false))) as Hgen.
+    { intros es1 es2 E.
+      destruct (Hp es1 es2 E) as (k1 & a1 & has1 & e1 & H1 & H2 & H3 & H4 & H5).
+      destruct (stutter_step (pos k a) e d J (journal es1) (pos k1 a1) e1 Hst HE H2 H3 H4)
+        as (e' & d' & S1 & S2 & S3).
+      exists k1, a1, has1, e', d', (b2n e1). split; [exact H1|]. split; [exact S1|]. split; [exact S2|].
+      split; [lia|]. split; [destruct e1; simpl; lia|].
+      intros E2. destruct (H5 E2) as [Hw Hd]. split; [exact Hw|].
+      intros Ho Hne. destruct (Hd Ho (or_introl Hne)) as (-> & -> & -> & _). auto. }
+    split; [|split; [exact Ht|split]].
+    + destruct (Hgen es' [] ltac:(rewrite app_nil_r; reflexivity))
+        as (k1 & a1 & has1 & e' & d' & w & G1 & G2 & G3 & G4 & _ & G5).
+      destruct (G5 eq_refl) as [Hw _].
+      rewrite <- Ht in G1. exists k1, a1, has1, e', d'. split; [exact G1|split; [exact G2|split; [exact G3|lia]]].
+    + intros es1 es2 E.
+      destruct (Hgen es1 es2 E) as (k1 & a1 & has1 & e' & d' & w & G1 & G2 & G3 & G4 & G5 & _).
+      exists k1, a1, has1, e', d'. split; [exact G1|split; [exact G2|split; [exact G3|lia]]].
+    + intros -> ->. specialize (Hnf eq_refl). subst o.
+      destruct (Hgen es' [] ltac:(rewrite app_nil_r; reflexivity))
+        as (k1 & a1 & has1 & e' & d' & w & G1 & G2 & G3 & G4 & _ & G5).
+      assert (chosen = f :: l) as Ech by reflexivity.
+      destruct (G5 eq_refl) as [Hw G6].
+      destruct (G6 eq_refl ltac:(rewrite Ech; discriminate)) as (-> & -> & ->).
+      rewrite <- Ht in G1.
+      assert (k + length chosen = length all) as Ek.
+      { rewrite Ech, <- Esk, skipn_length.
+        assert (k < length all).
+        { destruct (Nat.lt_ge_cases k (length all)) as [H|H]; [exact H|].
+          rewrite skipn_length_ge in Esk by exact H. discriminate. }
+        lia. }
+      rewrite Ek in *. rewrite pos_all in G2, G3. destruct e'; [simpl in G3; lia|].
+      cbn [b2n] in *. rewrite Nat.add_0_r, upto_all in G2.
+      split; [exact G1|]. exists d'. split; [exact G2|lia].
+Qed.
+
+
+(** ** what the table claims, as a list of planned statements *)
+Definition claimed_plan (t : list rev) : list (bytes * bytes) :=
+  flat_map (fun f => map (pair (f_version f)) (firstn (stored_applied hash t (f_version f)) (f_stmts f))) all.
+
+Lemma nth_error_skipn_add {A} m (l : list A) j : nth_error (skipn m l) j = nth_error l (m + j).
+Proof.
+  revert l; induction m as [|m IH]; intros l; [reflexivity|].
+  destruct l as [|x l]; simpl; [destruct j; reflexivity|apply IH].
+Qed.
+
+Lemma upto_pos0 k : upto (pos k 0) = plan (firstn k all).
+Proof.
+  pose proof (f_equal plan (firstn_skipn k all)) as Hp. rewrite plan_app in Hp.
+  unfold upto, pos. rewrite <- Hp, Nat.add_0_r, firstn_app, firstn_all, Nat.sub_diag. simpl. apply app_nil_r.
+Qed.
+
+Lemma Inv_claimed t k a has : Inv t k a has -> claimed_plan t = upto (pos k a).
+Proof.
+  intros HI. pose proof HI as (Hm & Hmap & Hrows & Hk).
+  set (g := fun f => map (pair (f_version f)) (firstn (stored_applied hash t (f_version f)) (f_stmts f))).
+  assert (forall l, (forall f, In f l -> stored_applied hash t (f_version f) = len f) -> flat_map g l = plan l) as Hfull.
+  { induction l as [|f l IH]; intros H; [reflexivity|]. simpl. rewrite IH by (intros; apply H; right; auto).
+    unfold g. rewrite (H f (or_introl eq_refl)), firstn_all. reflexivity. }
+  assert (forall l, (forall f, In f l -> stored_applied hash t (f_version f) = 0) -> flat_map g l = []) as Hnone.
+  { induction l as [|f l IH]; intros H; [reflexivity|]. simpl. rewrite IH by (intros; apply H; right; auto).
+    unfold g. rewrite (H f (or_introl eq_refl)). reflexivity. }
+  assert (forall m f, k + b2n has <= m -> In f (skipn m all) -> stored_applied hash t (f_version f) = 0) as Hlater.
+  { intros m f Hle Hin. apply In_nth_error in Hin as [j Hj]. rewrite nth_error_skipn_add in Hj.
+    unfold stored_applied. rewrite (Inv_notin t k a has (m + j) f HI Hj) by lia. reflexivity. }
+  unfold claimed_plan. fold g. rewrite <- (firstn_skipn k all) at 1. rewrite flat_map_app.
+  rewrite Hfull.
+  2:{ intros f Hin. apply In_nth_error in Hin as [i Hi].
+      assert (i < k) as Hlt.
+      { assert (i < length (firstn k all)) as L by (apply nth_error_Some; congruence).
+        rewrite firstn_length in L. lia. }
+      rewrite nth_error_firstn in Hi by exact Hlt.
+      destruct (Hrows i f Hlt Hi) as (r & Hg & (_ & Hap & _) & _).
+      unfold stored_applied. rewrite Hg. exact Hap. }
+  destruct has; cbn [b2n] in *.
+  - destruct Hk as (f & r & Hn & Hg & (_ & Hap & Hle & _) & _).
+    rewrite (upto_pos k f a Hn Hle). f_equal.
+    destruct (nth_error_firstn_split all k f Hn) as [_ Hall].
+    rewrite (skipn_nth_cons all k f Hn). cbn [flat_map].
+    rewrite (Hnone (skipn (S k) all)) by (intros x Hx; apply (Hlater (S k)); [lia|exact Hx]).
+    rewrite app_nil_r. unfold g, stored_applied. rewrite Hg, Hap. reflexivity.
+  - subst a. rewrite upto_pos0.
+    rewrite (Hnone (skipn k all)) by (intros x Hx; apply (Hlater k); [lia|exact Hx]).
+    apply app_nil_r.
+Qed.
+
+Lemma Inv_rows t k a has r :
+  Inv t k a has -> In r t -> exists f, In f all /\ claim_ok f r (r_applied r) /\ r_total r = len f.
+Proof.
+  intros HI Hin. pose proof HI as (Hm & Hmap & Hrows & Hk).
+  apply In_nth_error in Hin as [i Hi].
+  assert (i < k + b2n has) as Hlt.
+  { assert (i < length (map (@r_version hash) t)) as L by (rewrite map_length; apply nth_error_Some; congruence).
+    rewrite Hmap, map_length, firstn_length in L. lia. }
+  destruct (nth_error_some_lt all i ltac:(lia)) as [f Hf].
+  pose proof (Inv_row t k a has i r f HI Hi Hf) as Hg.
+  exists f. split; [eapply nth_error_In; exact Hf|].
+  destruct (Nat.lt_ge_cases i k) as [Hik|Hik].
+  - destruct (Hrows i f Hik Hf) as (r' & Hg' & Hc & Ht). rewrite Hg in Hg'. inversion Hg'; subst r'.
+    pose proof Hc as (_ & Hap & _). rewrite Hap. auto.
+  - destruct has; cbn [b2n] in *; [|lia]. assert (i = k) as -> by lia.
+    destruct Hk as (f' & r' & Hn & Hg' & Hc & Ht). rewrite Hf in Hn. inversion Hn; subst f'.
+    rewrite Hg in Hg'. inversion Hg'; subst r'.
+    pose proof Hc as (_ & Hap & _). rewrite Hap. auto.
+Qed.
+
+(** ** sequences of runs *)
+Definition run_ok (r : run) : Prop := run_dir r = all /\ cfg_ok (run_cfg r).
+
+Notation run_all := (run_all hash hash_eqb HS).
+
+Lemma runs_ginv : forall rs t J D,
+  Forall run_ok rs -> GInv t J D ->
+  GInv (final_tbl (run_all rs t) t) (J ++ journal (all_events (run_all rs t)))
+       (D + wf_all (run_all rs t)) /\
+  final_tbl (run_all rs t) t = tbl_of_events (all_events (run_all rs t)) t.
+Proof.
+  induction rs as [|r rs IH]; intros t J D Hok HG.
+  - simpl. rewrite app_nil_r, Nat.add_0_r. split; [exact HG|reflexivity].
+  - inversion Hok as [|? ? [Hdir Hcfg] Hok']; subst.
+    cbn [RunModel.run_all]. rewrite Hdir.
+    destruct (execute_n (run_cfg r) (run_n r) all t (run_faults r)) as [[[ro t'] fs'] es] eqn:EX.
+    destruct (run_ginv _ _ _ _ _ _ _ _ J D Hcfg HG EX) as (G1 & Ht & _ & _).
+    destruct (IH t' (J ++ journal es) (D + wf es) Hok' G1) as (G2 & Ht2).
+    unfold final_tbl, all_events, wf_all in *. simpl.
+    rewrite journal_app, app_assoc, Nat.add_assoc. split; [exact G2|].
+    rewrite tbl_of_events_app, <- Ht. exact Ht2.
+Qed.
+
+Lemma runs_prefix : forall rs t J D,
+  Forall run_ok rs -> GInv t J D ->
+  forall pre post, all_events (run_all rs t) = pre ++ post ->
+  exists D', GInv (tbl_of_events pre t) (J ++ journal pre) D'.
+Proof.
+  induction rs as [|r rs IH]; intros t J D Hok HG pre post E.
+  - simpl in E. symmetry in E. apply app_eq_nil in E as [-> _]. simpl. rewrite app_nil_r. eauto.
+  - inversion Hok as [|? ? [Hdir Hcfg] Hok']; subst.
+    cbn [RunModel.run_all] in E. rewrite Hdir in E.
+    destruct (execute_n (run_cfg r) (run_n r) all t (run_faults r)) as [[[ro t'] fs'] es] eqn:EX.
+    destruct (run_ginv _ _ _ _ _ _ _ _ J D Hcfg HG EX) as (G1 & Ht & Gp & _).
+    unfold all_events in E. simpl in E. apply app_eq_app in E as [l [[E1 E2]|[E1 E2]]].
+    + exists (D + 1). apply (Gp pre l). exact E1.
+    + destruct (IH t' (J ++ journal es) (D + wf es) Hok' G1 l post) as (D' & G2).
+      { unfold all_events. exact E2. }
+      exists D'. rewrite E1, tbl_of_events_app, journal_app, app_assoc, <- Ht. exact G2.
+Qed.
+
+Lemma runs_done : forall rs c t J D,
+  Forall run_ok rs -> cfg_ok c -> GInv t J D ->
+  let outs := run_all (rs ++ [mkRun c 0 all []]) t in
+  GDone (final_tbl outs t) (J ++ journal (all_events outs)) (D + wf_all outs).
+Proof.
+  induction rs as [|r rs IH]; intros c t J D Hok Hc HG.
+  - cbn [app RunModel.run_all run_cfg run_n run_dir run_faults].
+    destruct (execute_n c 0 all t []) as [[[ro t'] fs'] es] eqn:EX.
+    destruct (run_ginv _ _ _ _ _ _ _ _ J D Hc HG EX) as (_ & _ & _ & Gd).
+    unfold final_tbl, all_events, wf_all. simpl. rewrite app_nil_r, Nat.add_0_r. apply Gd; reflexivity.
+  - inversion Hok as [|? ? [Hdir Hcfg] Hok']; subst.
+    cbn [app RunModel.run_all]. rewrite Hdir.
+    destruct (execute_n (run_cfg r) (run_n r) all t (run_faults r)) as [[[ro t'] fs'] es] eqn:EX.
+    destruct (run_ginv _ _ _ _ _ _ _ _ J D Hcfg HG EX) as (G1 & Ht & _ & _).
+    pose proof (IH c t' (J ++ journal es) (D + wf es) Hok' Hc G1) as G2.
+    unfold final_tbl, all_events, wf_all in *. simpl.
+    rewrite journal_app, app_assoc, Nat.add_assoc. exact G2.
+Qed.
+
+(** ** the statements exported to Props_C09 *)
+Lemma resume_lemma rs :
+  Forall run_ok rs ->
+  let outs := run_all rs [] in
+  exists P E reps,
+    P <= E /\ E <= P + 1 /\ E <= plen /\ length reps = E /\
+    journal (all_events outs) = expand (firstn E (plan all)) reps /\
+    list_sum reps <= wf_all outs /\
+    claimed_plan (final_tbl outs []) = firstn P (plan all).
+Proof.
+  intros Hok outs.
+  destruct (runs_ginv rs [] [] 0 Hok GInv_nil) as ((k & a & has & e & d & HI & Hst & HE & HD) & _).
+  fold outs in HI, Hst, HD. simpl in Hst, HD.
+  destruct (stutter_expand _ _ _ Hst) as (reps & Hl & Hs & Hj).
+  exists (pos k a), (pos k a + b2n e), reps.
+  split; [lia|]. split; [destruct e; simpl; lia|]. split; [exact HE|].
+  split; [rewrite Hl; apply upto_length; exact HE|]. split; [exact Hj|]. split; [lia|].
+  apply (Inv_claimed _ k a has HI).
+Qed.
+
+Lemma never_overclaims_runs rs :
+  Forall run_ok rs ->
+  forall pre post, all_events (run_all rs []) = pre ++ post ->
+  exists P E reps,
+    P <= E /\ E <= P + 1 /\ E <= plen /\ length reps = E /\
+    journal pre = expand (firstn E (plan all)) reps /\
+    claimed_plan (tbl_of_events pre []) = firstn P (plan all) /\
+    (forall r, In r (tbl_of_events pre []) ->
+       exists f, In f all /\ claim_ok f r (r_applied r) /\ r_total r = len f).
+Proof.
+  intros Hok pre post E.
+  destruct (runs_prefix rs [] [] 0 Hok GInv_nil pre post E) as (D' & (k & a & has & e & d & HI & Hst & HE & HD)).
+  simpl in Hst.
+  destruct (stutter_expand _ _ _ Hst) as (reps & Hl & Hs & Hj).
+  exists (pos k a), (pos k a + b2n e), reps.
+  split; [lia|]. split; [destruct e; simpl; lia|]. split; [exact HE|].
+  split; [rewrite Hl; apply upto_length; exact HE|]. split; [exact Hj|].
+  split; [apply (Inv_claimed _ k a has HI)|].
+  intros r Hr. apply (Inv_rows _ k a has r HI Hr).
+Qed.
+
+Lemma wf_all_no_wfail (outs : list (run_outcome * list rev * list event)) :
+  (forall out r, In out outs -> ~ In (EWrite r false) (snd out)) -> wf_all outs = 0.
+Proof.
+  induction outs as [|x outs IH]; intros H; [reflexivity|].
+  unfold wf_all in *. simpl. rewrite IH by (intros out r Hin; apply H; right; exact Hin).
+  unfold wf. rewrite (wf_from_no_wfail hash false (snd x)); [reflexivity|].
+  intros r. apply H. left. reflexivity.
+Qed.
+
+(** Only statements fail: no repeats at all. *)
+Lemma once_prefix_lemma rs :
+  Forall run_ok rs ->
+  let outs := run_all rs [] in
+  (forall out r, In out outs -> ~ In (EWrite r false) (snd out)) ->
+  exists E, E <= plen /\ journal (all_events outs) = firstn E (plan all).
+Proof.
+  intros Hok outs Hnw.
+  destruct (runs_ginv rs [] [] 0 Hok GInv_nil) as ((k & a & has & e & d & HI & Hst & HE & HD) & _).
+  fold outs in Hst, HD. rewrite (wf_all_no_wfail outs Hnw) in HD. simpl in Hst, HD.
+  assert (d = 0) as -> by lia. exists (pos k a + b2n e). split; [exact HE|].
+  apply stutter_zero. exact Hst.
+Qed.
+
+Lemma complete_lemma rs c :
+  Forall run_ok rs -> cfg_ok c ->
+  let outs := run_all (rs ++ [mkRun c 0 all []]) [] in
+  let T := final_tbl outs [] in
+  (exists reps, length reps = plen /\ journal (all_events outs) = expand (plan all) reps /\
+                list_sum reps <= wf_all outs) /\
+  (forall f, In f all -> exists r, tbl_get T (f_version f) = Some r /\
+                                   r_applied r = len f /\ r_total r = len f) /\
+  (forall c', cfg_ok c' -> pending c' all (read_revisions hash T) = (PNoPending, None)).
+Proof.
+  intros Hok Hc outs T.
+  destruct (runs_done rs c [] [] 0 Hok Hc GInv_nil) as (HI & d & Hst & Hd).
+  fold outs in HI, Hst, Hd. fold T in HI. simpl in Hst, Hd.
+  split; [|split].
+  - destruct (stutter_expand _ _ _ Hst) as (reps & Hl & Hs & Hj). exists reps. repeat split; auto. lia.
+  - intros f Hin. apply In_nth_error in Hin as [i Hi].
+    assert (i < length all) as Hlt by (apply nth_error_Some; congruence).
+    destruct HI as (_ & _ & Hrows & _). destruct (Hrows i f Hlt Hi) as (r & Hg & (_ & Hap & _) & Ht).
+    exists r. auto.
+  - intros c' Hc'. rewrite (pending_inv c' T (length all) 0 false Hc' HI) by (intros H; discriminate).
+    rewrite skipn_all. reflexivity.
+Qed.
+
+Lemma exactly_once_lemma rs c :
+  Forall run_ok rs -> cfg_ok c ->
+  let outs := run_all (rs ++ [mkRun c 0 all []]) [] in
+  (forall out r, In out outs -> ~ In (EWrite r false) (snd out)) ->
+  journal (all_events outs) = plan all.
+Proof.
+  intros Hok Hc outs Hnw.
+  destruct (runs_done rs c [] [] 0 Hok Hc GInv_nil) as (_ & d & Hst & Hd).
+  fold outs in Hst, Hd. rewrite (wf_all_no_wfail outs Hnw) in Hd. simpl in Hst, Hd.
+  assert (d = 0) as -> by lia. apply stutter_zero. exact Hst.
+Qed.
+
 End Dir.
+
+(** ** one run stops at the first failing call (any configuration, any table) *)
+Lemma execute_n_stops c n all (t : list rev) fs ro t' fs' es :
+  execute_n c n all t fs = (ro, t', fs', es) ->
+  forall es1 e es2, es = es1 ++ e :: es2 -> ev_ok e = false ->
+    after_fail e es2 /\ exec_events es2 = [].
+Proof.
+  unfold RunModel.execute_n. intros Hex es1 e es2 E Hf.
+  destruct (pending c all (read_revisions hash t)) as [p w].
+  assert (forall t1 fs1 ev1 r t2 fs2,
+            (forall x, In x ev1 -> ev_ok x = true) ->
+            match p with
+            | PFiles files =>
+                let chosen := if 0 <? n then firstn n files else files in
+                let '(o, t2, fs2, es) := exec_files chosen t1 fs1 in (RExec o, t2, fs2, ev1 ++ es)
+            | _ => (RPend p, t1, fs1, ev1)
+            end = (r, t2, fs2, es) ->
+            after_fail e es2 /\ exec_events es2 = []) as Hbody.
+  { intros t1 fs1 ev1 r t2 fs2 Hev H.
+    assert (forall l, es = ev1 ++ l -> exists l1, l = l1 ++ e :: es2) as Hsplit.
+    { intros l El. rewrite El in E. apply app_eq_app in E as [m [[E1 E2]|[E1 E2]]].
+      - destruct m as [|x m].
+        + exists []. simpl in E2. rewrite app_nil_r in E1. subst. simpl. congruence.
+        + simpl in E2. inversion E2; subst x. exfalso.
+          assert (ev_ok e = true) by (apply Hev; rewrite E1; apply in_or_app; right; left; reflexivity).
+          congruence.
+      - exists m. exact E2. }
+    destruct p; try (inversion H; subst; destruct (Hsplit [] (eq_sym (app_nil_r _))) as [[|? ?] D]; discriminate).
+    cbv zeta in H.
+    destruct (exec_files (if 0 <? n then firstn n fs0 else fs0) t1 fs1) as [[[o t3] fs3] es3] eqn:EX.
+    inversion H as [[Ho Ht Hfs Hes]]. destruct (Hsplit es3 (eq_sym Hes)) as [l1 El1].
+    destruct (stop_on_fault_files hash hash_eqb HS _ _ _ _ _ _ _ EX) as [Hs _]. eapply Hs; eauto. }
+  destruct w as [rb|].
+  - destruct (write t fs rb) as [[[ok t1] fs1] e1] eqn:W.
+    apply write_ok_inv in W as (He1 & _). destruct ok; cbn [negb] in Hex.
+    + apply (Hbody t1 fs1 [e1] ro t' fs'); [|exact Hex].
+      intros x [<-|[]]. subst e1. reflexivity.
+    + inversion Hex as [[Ho Ht Hfs Hes]]. rewrite <- Hes in E.
+      destruct es1 as [|? [|? ?]]; inversion E; subst. split; [left; reflexivity|reflexivity].
+  - cbn [negb] in Hex. apply (Hbody t fs [] ro t' fs'); [intros x []|exact Hex].
+Qed.
+
 End Resume.
